@@ -40,9 +40,36 @@ Print Assumptions C04_scan_live.
 
 (* The judge used on the implementation's observations accepts the model on every input ... *)
 Theorem C04_single_ok_model : forall p head blk conf,
-  single_ok p head blk conf (accept p head blk conf) = true.
+  single_ok p head blk conf (processed p head blk conf) = true.
 Proof. exact single_ok_model. Qed.
 Print Assumptions C04_single_ok_model.
+
+(* ... whatever it accepts processed only sufficiently buried blocks (whichever block numbers the
+   implementation actually handed on - not merely the one it was asked about) ... *)
+Theorem C04_single_ok_safe : forall p head blk conf blocks b,
+  single_ok p head blk conf blocks = true -> In b blocks ->
+  (uses_conf p = true -> conf <= confirmations head b) /\ (uses_conf p = false -> b <= head).
+Proof. exact single_ok_safe. Qed.
+Print Assumptions C04_single_ok_safe.
+
+(* ... and, for the regular scan, did process the block that had one confirmation to spare. *)
+Theorem C04_single_ok_live : forall head blk conf blocks,
+  single_ok BtcScan head blk conf blocks = true -> conf + 1 <= confirmations head blk -> In blk blocks.
+Proof. exact single_ok_live. Qed.
+Print Assumptions C04_single_ok_live.
+
+(* Width of the Go types: the guards are stated over Z; wherever a guard accepts an input that the
+   Go types can hold, the later narrowing conversion of the height is exact. *)
+Theorem C04_sub_evt_fetch_exact : forall head blk conf,
+  in_domain SubRetryEvt head blk = true -> accept SubRetryEvt head blk conf = true -> 0 <= blk < 2 ^ 32.
+Proof. exact sub_evt_fetch_exact. Qed.
+Print Assumptions C04_sub_evt_fetch_exact.
+
+Theorem C04_btc_accept_fits_int64 : forall p head blk conf,
+  (p = BtcScan \/ p = BtcRetryMsg) -> in_domain p head blk = true -> 0 <= conf ->
+  accept p head blk conf = true -> blk < 2 ^ 63.
+Proof. exact btc_accept_fits_int64. Qed.
+Print Assumptions C04_btc_accept_fits_int64.
 
 Theorem C04_hist_ok_model : forall cur conf k heads,
   hist_ok cur conf k heads (scan cur conf k heads) = true.
@@ -60,5 +87,9 @@ Print Assumptions C04_hist_ok_safe.
 Example C04_nonvacuous :
   accept BtcScan 105 100 5 = true /\ accept BtcScan 104 100 5 = false /\
   accept EvmRetryMsg 106 100 5 = true /\ accept EvmRetryMsg 105 100 5 = false /\
-  scan None 2 0%N [10; 11; 12; 12; 14] = [(2%N, 10); (4%N, 11)].
+  scan None 2 0%N [10; 11; 12; 12; 14] = [(2%N, 10); (4%N, 11)] /\
+  (* beyond the 32-bit boundary: a height whose low 32 bits are below the finalized head *)
+  in_domain SubRetryEvt 100 (2 ^ 32 + 95) = true /\ accept SubRetryEvt 100 (2 ^ 32 + 95) 0 = false /\
+  single_ok SubRetryEvt 100 (2 ^ 32 + 95) 0 [2 ^ 32 + 95] = false /\
+  processed EvmRetryMsg (2 ^ 64 + 7) (2 ^ 64 + 1) 5 = [2 ^ 64 + 1; 2 ^ 64 + 1].
 Proof. vm_compute. repeat split. Qed.
